@@ -75,6 +75,17 @@ func readUint24LengthPrefixed(s *cryptobyte.String, out *[]byte) bool {
 	return s.ReadUint24LengthPrefixed((*cryptobyte.String)(out))
 }
 
+// tlcpIsCompleteMessage reports whether data is exactly one handshake message of the given
+// type: a 4-byte header whose 24-bit length equals the number of body bytes that follow it.
+// readHandshake only ever passes such data to unmarshal; called on anything else the decoders
+// refuse it instead of ignoring the length field.
+func tlcpIsCompleteMessage(data []byte, msgType uint8) bool {
+	if len(data) < 4 || data[0] != msgType {
+		return false
+	}
+	return int(data[1])<<16|int(data[2])<<8|int(data[3]) == len(data)-4
+}
+
 type clientHelloMsg struct {
 	raw    []byte
 	vers   uint16
@@ -329,6 +340,9 @@ func (m *clientHelloMsg) marshal() ([]byte, error) {
 }
 
 func (m *clientHelloMsg) unmarshal(data []byte) bool {
+	if !tlcpIsCompleteMessage(data, typeClientHello) {
+		return false
+	}
 	*m = clientHelloMsg{raw: data}
 	s := cryptobyte.String(data)
 
@@ -724,6 +738,9 @@ func (m *serverHelloMsg) marshal() ([]byte, error) {
 }
 
 func (m *serverHelloMsg) unmarshal(data []byte) bool {
+	if !tlcpIsCompleteMessage(data, typeServerHello) {
+		return false
+	}
 	*m = serverHelloMsg{raw: data}
 	s := cryptobyte.String(data)
 
@@ -882,6 +899,9 @@ func (m *certificateMsg) marshal() ([]byte, error) {
 }
 
 func (m *certificateMsg) unmarshal(data []byte) bool {
+	if !tlcpIsCompleteMessage(data, typeCertificate) {
+		return false
+	}
 	if len(data) < 7 {
 		return false
 	}
@@ -954,6 +974,9 @@ func (m *serverKeyExchangeMsg) marshal() ([]byte, error) {
 }
 
 func (m *serverKeyExchangeMsg) unmarshal(data []byte) bool {
+	if !tlcpIsCompleteMessage(data, typeServerKeyExchange) {
+		return false
+	}
 	m.raw = data
 	if len(data) < 4 {
 		return false
@@ -1016,6 +1039,9 @@ func (m *serverHelloDoneMsg) marshal() ([]byte, error) {
 }
 
 func (m *serverHelloDoneMsg) unmarshal(data []byte) bool {
+	if !tlcpIsCompleteMessage(data, typeServerHelloDone) {
+		return false
+	}
 	return len(data) == 4
 }
 
@@ -1048,6 +1074,9 @@ func (m *clientKeyExchangeMsg) marshal() ([]byte, error) {
 }
 
 func (m *clientKeyExchangeMsg) unmarshal(data []byte) bool {
+	if !tlcpIsCompleteMessage(data, typeClientKeyExchange) {
+		return false
+	}
 	m.raw = data
 	if len(data) < 4 {
 		return false
@@ -1089,6 +1118,9 @@ func (m *finishedMsg) marshal() ([]byte, error) {
 }
 
 func (m *finishedMsg) unmarshal(data []byte) bool {
+	if !tlcpIsCompleteMessage(data, typeFinished) {
+		return false
+	}
 	m.raw = data
 	s := cryptobyte.String(data)
 	return s.Skip(1) &&
@@ -1154,6 +1186,9 @@ func (m *certificateRequestMsg) marshal() ([]byte, error) {
 }
 
 func (m *certificateRequestMsg) unmarshal(data []byte) bool {
+	if !tlcpIsCompleteMessage(data, typeCertificateRequest) {
+		return false
+	}
 	m.raw = data
 
 	if len(data) < 5 {
@@ -1264,6 +1299,9 @@ func (m *certificateVerifyMsg) marshal() ([]byte, error) {
 }
 
 func (m *certificateVerifyMsg) unmarshal(data []byte) bool {
+	if !tlcpIsCompleteMessage(data, typeCertificateVerify) {
+		return false
+	}
 	m.raw = data
 	s := cryptobyte.String(data)
 
